@@ -2,7 +2,6 @@ package vc
 
 import (
 	"bytes"
-	"sync/atomic"
 	"context"
 	"fmt"
 	"os"
@@ -10,6 +9,7 @@ import (
 	"path/filepath"
 	"strings"
 	"sync"
+	"sync/atomic"
 	"time"
 )
 
@@ -43,7 +43,7 @@ type SolverCfg struct {
 	WorkDir    string
 	CrossCheck bool // re-check every unsat on the other solvers
 	KeepFiles  bool
-	StopAfter  int // quick tier: stop attempting obligations once this many could not be discharged (0 = never)
+	StopAfter  int                    // quick tier: stop attempting obligations once this many could not be discharged (0 = never)
 	Known      func(name string) bool // obligations of listed known findings do not count towards StopAfter
 }
 
